@@ -192,16 +192,18 @@ def evaluate_case(case):
     else:
         project = outset
     use_shown = False
+    terms_only = False
     if rel == "out" and case["outp"] == "auto":
         from clingo.ast import ASTType as _T
         use_shown = any(st.ast_type in (_T.ShowSignature, _T.ShowTerm) for st in prg)
+        terms_only = not any(st.ast_type == _T.ShowSignature for st in prg)
     fact_preds = voc if case.get("facts_over") == "any" else (inset & voc)
     insts = case.get("instances") or make_instances(rng, fact_preds, text, case.get("n_inst", 4))
     rec["compared"] = 0
     rec["skipped"] = 0
     for inst in insts:
         try:
-            a = oracle.shown(src_text + "\n" + inst) if use_shown else oracle.solve_text(src_text + "\n" + inst, project)
+            a = oracle.shown(src_text + "\n" + inst, terms_only=terms_only) if use_shown else oracle.solve_text(src_text + "\n" + inst, project)
         except oracle.Skip:
             rec["skipped"] += 1
             continue
@@ -211,7 +213,7 @@ def evaluate_case(case):
             continue
         try:
             # warnings of the result alone are not a difference: its answer sets are compared all the same
-            b = oracle.shown(res_text + "\n" + inst, allow_undefined=True) if use_shown else \
+            b = oracle.shown(res_text + "\n" + inst, allow_undefined=True, terms_only=terms_only) if use_shown else \
                 oracle.solve_text(res_text + "\n" + inst, project, allow_undefined=True)
         except oracle.Skip:
             rec["skipped"] += 1
